@@ -210,19 +210,43 @@ def accumulated_min(tier):
     return n, fails
 
 
-def closure_one(case):
+def closure_one(case, convex=True):
     """the delays cached for multi-hop trigger paths (World.cache_triggering_ancestors) against applying the delays of
     the hops one after the other: for every pair (src, dest) joined by a trigger path and every departure time t,
     t + cached(src, dest) must be the earliest of the hop-by-hop arrival times over the simple paths"""
     from .. import simlib
     from mosaik.exceptions import ScenarioError
     desc = dict(kind='call', law='path_closure', case=case)
+    import signal
     world = simlib.build_world(case)
+    def _alarm(sig, frm): raise simlib.Hang('closure did not return')
+    signal.signal(signal.SIGALRM, _alarm); signal.alarm(20)      # (non-convex scenarios: known finding F9h)
     try:
         try:
             world.ensure_no_dataflow_cycles()
         except ScenarioError:
             return 'skip'
+        # a closed path whose delays, applied one after the other, never move a departure time forward is a zero delay:
+        # the comparison that decides "zero" must agree with the hop-by-hop application (the cycle check accepted the scenario)
+        dhops = {}
+        for sid, sim in world.sims.items():
+            for pre, d in sim.input_delays.items(): dhops.setdefault(pre.sid, []).append((sid, d))
+        def cycles(start, cur, seen, acc):
+            for (nx, d) in dhops.get(cur, []):
+                if nx == start: yield acc + [d]
+                elif nx not in seen and nx > start: yield from cycles(start, nx, seen | {nx}, acc + [d])
+        for start in list(dhops):
+            for cyc in itertools.islice(cycles(start, start, {start}, []), 50):
+                L0 = cyc[0].pre_length
+                back = True
+                for t in itertools.islice(itertools.product((0, 2), *[(0, 1)] * (L0 - 1)), 8):
+                    x = TT(*t)
+                    for d in cyc: x = x + d
+                    if len(x) != L0 or x > TT(*t): back = False; break
+                if back:
+                    return dict(desc, observed=f'the closed path through {start} with delays {[str(d) for d in cyc]} never arrives later than it departs (no delay at all), '
+                                               'yet the scenario was accepted as free of zero-delay cycles')
+        if not convex: return None          # (the cached ancestor delays are only compared for convex scenarios: F9/F13)
         world.cache_triggering_ancestors()
         hops = {}; plen = {}
         for sid, sim in world.sims.items():
@@ -258,7 +282,10 @@ def closure_one(case):
     except AssertionError as e:
         if 'incomparable' in str(e): return 'skip'
         return dict(desc, observed=f'AssertionError: {e}'[:200])
+    except simlib.Hang:
+        return 'skip'
     finally:
+        signal.alarm(0); signal.signal(signal.SIGALRM, signal.SIG_DFL)
         world.shutdown()
     return None
 
@@ -285,10 +312,15 @@ def path_closure(tier, rng):
                     common_g = bool(grp[a]) and bool(grp[b]) and grp[a][0] == grp[b][0]
                     kind = rng.choice(['p', 'p', 'ts'] + (['w', 'w'] if common_g else []))
                     edges.append(dict(a=a, b=b, sa=rng.choice(['eo', 'e2']), da=rng.choice(['ti', 't2']), kind=kind, shift=rng.choice([1, 2]) if kind == 'ts' else 0, init=False))
+            if rng.random() < 0.4:
+                # close the chain (or a part of it) into a cycle: accepted only if some connection on it delays
+                a, b = rng.randrange(1, m), 0
+                common_g = bool(grp[a]) and bool(grp[b]) and grp[a][0] == grp[b][0]
+                kind = rng.choice(['p', 'p', 'p', 'ts'] + (['w'] if common_g else []))
+                edges.append(dict(a=a, b=b, sa='e2', da='t2', kind=kind, shift=1 if kind == 'ts' else 0, init=False))
             case = dict(n=m, types=['hybrid'] * m, grp=grp, edges=edges, until=1, beh=[{'type': 'hybrid'} for _ in range(m)], init=[], maxloop=100)
-        if not tracelib.convex(case): continue
         try:
-            f = closure_one(case)
+            f = closure_one(case, convex=tracelib.convex(case))
         except Exception as e:
             f = dict(kind='call', law='path_closure', case=case, observed=f'{type(e).__name__}: {e}'[:200])
         if f == 'skip': continue
@@ -362,7 +394,8 @@ def replay(path, out):
     elif r['law'].startswith('smaller'):
         t = TT(*r['t']); res = (A < B, t + A, t + B); print('a<b, t+a, t+b:', res); bad = res[0] and res[1] > res[2]
     elif r['law'] == 'path_closure':
-        f = closure_one(r['case']); print(f['observed'] if isinstance(f, dict) else 'cached delays agree with hop-by-hop application'); bad = isinstance(f, dict)
+        from .. import tracelib
+        f = closure_one(r['case'], convex=tracelib.convex(r['case'])); print(f['observed'] if isinstance(f, dict) else 'cached delays agree with hop-by-hop application'); bad = isinstance(f, dict)
     elif r['law'] == 'accumulated_min':
         f = acc_one(r['grouped'], [tuple(x) for x in r['connections']]); print(f['observed'] if f else 'stored delay is the minimum'); bad = f is not None
     else:
